@@ -94,7 +94,10 @@ def gen_program(rng, ndex=None, shared_strings=True):
     rng.shuffle(order)
     for j, ci in enumerate(order):
         parts[j % k if j < k else rng.randrange(k)].append(classes[ci])
-    return {"dex": [p for p in parts if p]}
+    prog = {"dex": [p for p in parts if p]}
+    if rng.random() < 0.3:                    # the string data of the files written in another order than the string ids
+        prog["sdo"] = rng.choice(("reverse", rng.randrange(1, 10**6)))
+    return prog
 
 
 # ---------------------------------------------------------------------------------------------------------- building
@@ -127,7 +130,12 @@ def build_dexes(prog):
     for part in prog["dex"]:
         n = prog.get("bulk", 0)             # that many types, field ids and method ids nothing refers to, sorting before all others
         pad = ["LA%05d;" % j for j in range(n)]
-        b = DexBuilder(extra_types=pad, extra_fields=[("LA00000;", t, "I") for t in pad], extra_methods=[("LA00000;", t, "V", ()) for t in pad])
+        order = prog.get("sdo")
+        if isinstance(order, int):
+            import random
+            order = (lambda seed: (lambda m: random.Random(seed).sample(range(m), m)))(order)
+        b = DexBuilder(extra_types=pad, extra_fields=[("LA00000;", t, "I") for t in pad], extra_methods=[("LA00000;", t, "V", ()) for t in pad],
+                       string_data_order=order)
         for c in part:
             k = b.add_class(c["name"], access=c.get("access", 1))
             for fn, ft in c["fields"]:
@@ -547,6 +555,106 @@ def oracle_c14(case, res):
         return "field %r has %d FieldAnalysis objects" % tuple(multi[0])
     return "CROSS-CLASS: accesses from a class other than the field's class are filed under the accessing class or dropped (e.g. %s)" % (
         problems[0][1] if problems else "field %r has %d FieldAnalysis objects" % tuple(multi[0]))
+
+
+def gen_shadow14(rng, tier, ctx):
+    """two DEX files defining the same class names with different code; only accesses of a class to its own fields are kept
+    (accesses from other classes are the known finding); with ask_first the write lists are asked before the cross-references exist"""
+    cases = []
+    for _ in range(30 if tier == "thorough" else 6):
+        progs = [gen_program(rng, ndex=1), gen_program(rng, ndex=1)]
+        for p in progs:
+            for c in p["dex"][0]:
+                own = {(fn, ft) for fn, ft in c["fields"]}
+                for m in c["methods"]:
+                    m["code"] = [i for i in m["code"] if i[0] != "field" or (i[2] == c["name"] and (i[3], i[4]) in own)]
+        cases.append({"dex": [progs[0]["dex"][0], progs[1]["dex"][0]], "order": rng.choice(([0, 1], [1, 0])), "ask_first": rng.random() < 0.5})
+    return cases
+
+
+def impl_shadow14(case):
+    from androguard.core.dex import DEX
+    from androguard.core.analysis.analysis import Analysis
+    raws = build_dexes(case)
+    vms = [DEX(r) for r in raws]
+    dx = Analysis()
+    for i in case["order"]:
+        dx.add(vms[i])
+    early = 0
+    if case.get("ask_first"):
+        for d in vms:
+            for cls in d.get_classes():
+                for f in cls.get_fields():
+                    fa = dx.get_field_analysis(f)
+                    if fa is not None:
+                        early += len(list(fa.get_xref_write())) + len(list(fa.get_xref_read()))
+    dx.create_xref()
+    mkey = {}
+    for di, d in enumerate(vms):
+        for m in d.get_encoded_methods():
+            mkey[m] = (di, m.get_class_name(), m.get_name(), str(m.get_descriptor()))
+    counts = {}
+    for fa in dx.get_fields():
+        counts[fa.get_field()] = counts.get(fa.get_field(), 0) + 1
+    rows = []
+    for di, d in enumerate(vms):
+        for cls in d.get_classes():
+            for f in cls.get_fields():
+                fa = dx.get_field_analysis(f)
+                key = [di, f.get_class_name(), f.get_name(), f.get_descriptor()]
+                if fa is None:
+                    rows.append(key + ["no FieldAnalysis"])
+                    continue
+                got = {}
+                for kind, getter in (("r", fa.get_xref_read), ("w", fa.get_xref_write)):
+                    got[kind] = sorted([list(mkey.get(m.get_method(), (-1, "?", "?", "?"))) + [off] for c, m, off in getter(with_offset=True)])
+                    got[kind + "_pairs"] = sorted({tuple(mkey.get(m.get_method(), (-1, "?", "?", "?"))) for c, m in getter()})
+                rows.append(key + [fa.get_field() is f, counts.get(f, 0), got])
+    return {"rows": rows, "early": early}
+
+
+def oracle_shadow14(case, res):
+    if isinstance(res, Err):
+        return "analysis failed: %s %s" % (res.name, res.msg[:150])
+    want = {}
+    for di, part in enumerate(case["dex"]):
+        for c in part:
+            for fn, ft in c["fields"]:
+                want[(di, c["name"], fn, ft)] = {"r": [], "w": []}
+            for m in c["methods"]:
+                for off, i in with_offsets(m):
+                    if i[0] == "field" and (di, i[2], i[3], i[4]) in want:
+                        rw = "r" if (0x52 <= i[1] <= 0x58 or 0x60 <= i[1] <= 0x66) else "w"
+                        want[(di, i[2], i[3], i[4])][rw].append([di, c["name"], m["name"], desc_str(m["ret"], m["params"]), off])
+    seen = set()
+    for row in res["rows"]:
+        key = tuple(row[:4])
+        seen.add(key)
+        if key not in want:
+            continue
+        if row[4] == "no FieldAnalysis":
+            if not want[key]["r"] and not want[key]["w"]:
+                continue          # a field nothing accesses, of a definition another DEX file shadows: the unchanged tree keeps no record of it
+            return "field %r (DEX file %d): get_field_analysis returns nothing" % (key[1:], key[0])
+        same, n, got = row[4], row[5], row[6]
+        if not same or n != 1:
+            return "field %r (DEX file %d): %d FieldAnalysis objects, get_field_analysis returns %s" % (key[1:], key[0], n, "this field's" if same else "another field's")
+        for kind in ("r", "w"):
+            if got[kind] != sorted(want[key][kind]):
+                return "field %r (DEX file %d): %s accesses reported %r, in the code %r" % (key[1:], key[0], {"r": "read", "w": "write"}[kind], got[kind], sorted(want[key][kind]))
+            if [list(x) for x in got[kind + "_pairs"]] != sorted({tuple(x[:4]) for x in want[key][kind]} and [list(t) for t in sorted({tuple(x[:4]) for x in want[key][kind]})]):
+                return "field %r (DEX file %d): get_xref_%s() without offsets lists %r, in the code %r" % (
+                    key[1:], key[0], {"r": "read", "w": "write"}[kind], got[kind + "_pairs"], sorted({tuple(x[:4]) for x in want[key][kind]}))
+    missing = set(want) - seen
+    if missing:
+        return "defined fields never seen: %r" % sorted(missing)[:2]
+    return None
+
+
+def STREAM14_SHADOW():
+    return {"name": "shadowed-definitions", "gen": gen_shadow14, "impl": impl_shadow14, "canon": lambda r: r["rows"], "pinned": False,
+            "oracle": oracle_shadow14, "stats": lambda cases, results: {"programs": len(cases), "asked_before_create_xref": sum(1 for c in cases if c["ask_first"])},
+            "case_timeout": 120}
 
 
 def classify_c14(case, res, why):
